@@ -53,7 +53,7 @@ func entityCtorPasses(c *core.Ctx) {
 		if !known || k < 0 {
 			return
 		}
-		if st.Val == ssa.Value(f.Params[k]) {
+		if unchangedValue(st.Val, f.Params[k], 0) {
 			good[name] = true
 		} else {
 			bad[name] = st.Pos()
